@@ -119,6 +119,11 @@ def final_matches(cfg, obs, name, k):
         if rk == 'batch':
             return kind == 'ok' and v == ({'attempt': k, 'id': 1}, {'attempt': k, 'id': 2})
         return kind == 'ok' and v == {'attempt': k, 'id': 1}
+    if name in ('notjson', 'notresp', 'identity'):
+        # the attempt ended in an exception raised by the client while reading the answer
+        from pjrpc.common.exceptions import DeserializationError, IdentityError
+        want_cls = {'notjson': ValueError, 'notresp': DeserializationError, 'identity': IdentityError}[name]
+        return kind == 'exc' and isinstance(v, want_cls)
     code = LISTED_BY[name][1]
     if via_send:
         if kind != 'ok' or not v.is_error:
@@ -224,7 +229,19 @@ def gen_cases(ctx):
         ('override-less', S(2), S(0)), ('override-codes', S(2, codes='one'), S(2, codes='empty', excs='empty')),
         ('disabled', S(2), None),
     ]
+    for n in (0, 1, 2):
+        for strategy in (True, False):
+            yield dict(part='F', attempts=n, strategy=strategy)
     yield from gen_repeat(ctx)
+    # (E) failures raised by the client itself while reading the answer (not JSON, not a response, identity mismatch) are attempts
+    #     that ended in an exception like any other: re-sent iff the exception type is listed
+    for n in (0, 1, 2):
+        for excs in ('wide', 'one', 'none'):
+            for rk in ('single', 'batch'):
+                for kind in ('sync', 'async'):
+                    yield dict(part='E', kind=kind, request=rk, via='call', c19=True,
+                               drop=['code_listed2', 'level_listed2', 'exc_listed2', 'exc_sub', 'base', 'code_unlisted', 'level_unlisted'],
+                               client_strategy=dict(attempts=n, codes='one', excs=excs, backoff=PERIODIC))
     for name, cs, rs in placements:
         for rk in ('single', 'batch', 'notification'):
             for kind in ('sync', 'async'):
@@ -244,7 +261,89 @@ def gen_repeat(ctx):
                     yield dict(part='D', kind=kind, request=rk, via='send', drop=drop, client_strategy=None, request_strategy=st, repeat=2)
 
 
+def run_physical(cfg, rec):
+    """(F) the real requests backend with its DEFAULT session: the environment answers every physical HTTP request (the call
+    into urllib3's connection pool is scripted: 'the connection breaks after the request was written' or a JSON-RPC reply); the
+    number of requests that reach the wire must be the number of attempts the retry strategy allows - no hidden re-sending"""
+    import io
+    from http.client import RemoteDisconnected
+    from urllib3.connectionpool import HTTPConnectionPool
+    from urllib3.exceptions import ProtocolError
+    from urllib3.response import HTTPResponse
+    import requests
+    from pjrpc.client.backend import requests as br
+    from mc import sleeplog
+    n = cfg['attempts']
+    leaves = 0
+    orig = HTTPConnectionPool._make_request
+    def once(env):
+        sends = []
+        script = []
+
+        def fake_make_request(self, conn, method, url, body=None, headers=None, **kw):
+            k = len(sends)
+            sends.append((method, url, body))
+            if k > n + 2:
+                raise AssertionError('horizon')
+            what = ('break', 'ok', 'err')[env.choose(('physical send', k), 3)]
+            script.append(what)
+            if what == 'break':
+                raise ProtocolError('Connection aborted.', RemoteDisconnected('Remote end closed connection without response'))
+            doc = json.loads(body)
+            reply = dict(jsonrpc='2.0', id=doc['id'])
+            if what == 'ok':
+                reply['result'] = k
+            else:
+                reply['error'] = dict(code=cr.C1, message='attempt %d' % k)
+            payload = json.dumps(reply).encode()
+            return HTTPResponse(body=io.BytesIO(payload), headers={'Content-Type': 'application/json', 'Content-Length': str(len(payload))},
+                                status=200, preload_content=False, decode_content=False, request_method=method)
+        HTTPConnectionPool._make_request = fake_make_request
+        sleeplog.take()
+        try:
+            st = cr.R.RetryStrategy(backoff=cr.R.PeriodicBackoff(attempts=n, interval=0.5), codes={cr.C1}, exceptions={requests.ConnectionError}) if cfg['strategy'] else None
+            client = br.Client('http://rpc.test/api', **({'retry_strategy': st} if st else {}))
+            try:
+                out = ('ok', client.call('m', 1))
+            except BaseException as e:   # noqa
+                out = ('exc', type(e).__name__)
+        finally:
+            HTTPConnectionPool._make_request = orig
+        return sends, script, out, sleeplog.take()
+    for choices, (sends, script, out, sleeps) in explore_choices(once, max_exec=20000):
+        leaves += 1
+        rec.transitions += len(sends)
+        # reference: every logical attempt is exactly one physical request; 'break' / 'err' are retried while attempts remain
+        allowed = (n if cfg['strategy'] else 0) + 1
+        want_sends = 0
+        final = None
+        for what in script:
+            want_sends += 1
+            final = what
+            if what == 'ok' or want_sends >= allowed:
+                break
+        c = dict(cfg=cfg, choices=list(choices))
+        if len(sends) != want_sends or script[:want_sends] != script:
+            rec.violation('C09:physical:the number of HTTP requests on the wire differs from the number of attempts (requests backend, default session)', c,
+                          expected=want_sends, observed=dict(wire=len(sends), answers=script))
+            continue
+        if len(sleeps) != want_sends - 1:
+            rec.violation('C09:physical:a request was re-sent without the configured pause', c, expected=want_sends - 1, observed=len(sleeps))
+            continue
+        want_out = {'ok': 'ok', 'break': 'exc', 'err': 'exc'}[final]
+        if out[0] != want_out or (final == 'break' and out[1] != 'ConnectionError'):
+            rec.violation('C09:physical:caller did not receive the last attempt\'s outcome', c, expected=(final, want_out), observed=out)
+        rec.outcomes['physical sends=%d final=%s' % (len(sends), final)] += 1
+    rec.traces += leaves
+    rec.states += leaves
+    rec.nontrivial_n += leaves
+    rec.counters['part F'] += leaves
+    return leaves
+
+
 def run_case(cfg, rec):
+    if cfg.get('part') == 'F':
+        return run_physical(cfg, rec)
     leaves = 0
     summary = []
     for choices, obs in explore_choices(lambda env: cr.execute(cfg, env), max_exec=200000):
